@@ -1617,7 +1617,7 @@ func init() {
 		return func(r *evid.Run) {
 			registerStandardExt()
 			encStats = NewStats()
-			dl := deadline(r, 50*time.Second, 15*time.Minute)
+			dl := deadline(r, 120*time.Second, 15*time.Minute)
 			b := quickBound
 			if thorough(r) {
 				b = thoroughBound
